@@ -290,9 +290,17 @@ pub fn big_message_corpus(prop: &str, extra_polls: usize) -> Vec<Scenario> {
     use crate::smlref::{RBody, REntry, RMsg, RValue};
     let mut v = Vec::new();
     let mut rng = Rng::new(0xB16);
-    for n in [9_400usize, 65_540] {
+    // (entries of 10 bytes, and entries of exactly 16 bytes: a period that divides 2^16, so that an
+    // offset that wraps lands on an entry boundary again)
+    for (n, wide) in [(9_400usize, false), (4_200, true), (65_540, false)] {
         let entries: Vec<REntry> = (0..n)
-            .map(|i| REntry { name: Hx(vec![(i % 251) as u8]), status: None, val_time: None, unit: None, scaler: None, value: RValue::U8((i % 256) as u8), sig: None })
+            .map(|i| {
+                if wide {
+                    REntry { name: Hx(vec![1, 0, (i % 251) as u8, 8, 0, 0xff]), status: None, val_time: None, unit: None, scaler: None, value: RValue::U16(0x8000 | (i % 0x7fff) as u16), sig: None }
+                } else {
+                    REntry { name: Hx(vec![(i % 251) as u8]), status: None, val_time: None, unit: None, scaler: None, value: RValue::U8((i % 256) as u8), sig: None }
+                }
+            })
             .collect();
         let m = RMsg {
             tid: Hx(vec![1, 2, 3]),
@@ -304,7 +312,7 @@ pub fn big_message_corpus(prop: &str, extra_polls: usize) -> Vec<Scenario> {
         let close = RMsg { tid: Hx(vec![4]), group: 0, abort: 0, body: RBody::Close { sig: None } };
         let close = MsgScn { body: Hx(smlgen::encode_body(&close, &mut rng, &smlgen::Profile::plain())), seal: Seal::Good };
         let mk = |b: Vec<u8>, post: Vec<ByteOp>, sub: &str, note: String| {
-            Scenario::File(FileScn { prop: prop.into(), sub: sub.into(), msgs: vec![MsgScn { body: Hx(b), seal: Seal::Good }, close.clone()], post, extra_polls, notes: vec![format!("base:big-list({})", n), note] })
+            Scenario::File(FileScn { prop: prop.into(), sub: sub.into(), msgs: vec![MsgScn { body: Hx(b), seal: Seal::Good }, close.clone()], post, extra_polls, notes: vec![format!("base:big-list({}{})", n, if wide { ",16-byte entries" } else { "" }), note] })
         };
         v.push(mk(body.clone(), vec![], "valid", "intact".into()));
         let total = body.len() + 4;
